@@ -590,6 +590,11 @@ def case_strategy():
         edits = []
         fresh_n = 0
         renamed = set()
+        if core is not None and draw(st.integers(0, 1)) == 0:
+            # the imported function itself gets the fresh name, underscore-prefixed in half of the cases (deliberate: one
+            # function among ten names is picked too rarely by the general rename below)
+            renamed.add(fname)
+            edits.append(("rename", fname, draw(st.sampled_from(["zz_core0", "_zz_core0"]))))
         for _ in range(n_edits):
             k = draw(st.sampled_from(["blank", "blank", "rename", "rename", "noop", "swap", "move", "rename_in", "rename_in", "move_core"]))
             if k == "blank":
@@ -604,7 +609,9 @@ def case_strategy():
                 old = pool[draw(st.integers(0, len(pool) - 1))]
                 fresh_n += 1
                 renamed.add(old)
-                edits.append(("rename", old, "zz_fresh%d" % fresh_n))
+                # a fresh name may start with an underscore (no meaning in Python outside `import *`, which the bases do
+                # not use): seed C12-m3 hid such names from importers
+                edits.append(("rename", old, draw(st.sampled_from(["zz_fresh%d", "zz_fresh%d", "_zz_fresh%d"])) % fresh_n))
             elif k == "rename_in":
                 pool = [x for x in names["shadow"] if x not in renamed]
                 if not pool:
